@@ -125,6 +125,23 @@ def schema_for(version: str, *, via_context: bool = False) -> MessageSchema:
 CONFIG_EXTRA: dict[str, Any] = {}  # non-default values for Config options the harness does not know (see unknown_options)
 
 
+from contextlib import contextmanager  # noqa: E402
+
+
+@contextmanager
+def options(extra: dict | None):
+    """Put non-default values of unknown Config options in force for the gateways built inside the block; the options that
+    were in force before are restored afterwards (blocks nest)."""
+    saved = dict(CONFIG_EXTRA)
+    CONFIG_EXTRA.clear()
+    CONFIG_EXTRA.update(extra or {})
+    try:
+        yield
+    finally:
+        CONFIG_EXTRA.clear()
+        CONFIG_EXTRA.update(saved)
+
+
 def unknown_options() -> list[dict]:
     """Non-default settings of every Config option this harness does not know (an option added since the properties were
     written): 'every gateway state' includes how the gateway was configured.  Empty on the unchanged tree."""
